@@ -40,6 +40,10 @@ class ZpSpaceTransfer(SpaceTransfer):
         return self._mv(self.Rs, F, zp.zmesh)
 
     def prolong(self, G):
+        if isinstance(G, zp.zimex):
+            F = zp.zimex((len(self.Ps), None, None))
+            F.impl, F.expl = self._mv(self.Ps, G.impl, zp.zmesh), self._mv(self.Ps, G.expl, zp.zmesh)
+            return F
         return self._mv(self.Ps, G, zp.zmesh)
 
 
@@ -235,7 +239,8 @@ def run_transfer_case(inst, p):
     desc = dict(problem_class=pcF, problem_params={k: [ppF[k], ppG[k]] for k in ppF}, sweeper_class=sweeper_class(kind),
                 sweeper_params={k: ([swF[k], swG[k]] if swF[k] != swG[k] else swF[k]) for k in swF},
                 level_params=dict(dt=dt_float(inst['dt'])), step_params=dict(maxiter=1),
-                base_transfer_class=ZpBaseTransfer, base_transfer_params=dict(Rc=[list(r) for r in T['Rc']], Pc=[list(r) for r in T['Pc']]),
+                base_transfer_class=ZpBaseTransfer,
+                base_transfer_params=dict(Rc=[list(r) for r in T['Rc']], Pc=[list(r) for r in T['Pc']], finter=bool(inst.get('finter'))),
                 space_transfer_class=ZpSpaceTransfer, space_transfer_params=dict(Rs=[list(r) for r in T['Rs']], Ps=[list(r) for r in T['Ps']]))
     out = {}
     try:
@@ -255,6 +260,12 @@ def run_transfer_case(inst, p):
         out['coarse_swept'] = vecs(LG.u[1:])
         S.transfer(source=LG, target=LF)
         out['prolonged'] = vecs(LF.u[1:])
+        out['finter'] = bool(inst.get('finter'))
+        if kind == 'imex':
+            out['f_impl'], out['f_expl'] = vecs([f.impl for f in LF.f[1:]]), vecs([f.expl for f in LF.f[1:]])
+        else:
+            # one piece: compare with the sum of the model's parts (the explicit part of an implicit instance is zero)
+            out['f_impl'], out['f_expl'] = vecs(LF.f[1:]), [[0] * inst['n'] for _ in range(inst['M'])]
         out['fine_u0_kept'] = LF.u[0].tolist() == list(inst['u0'])
     finally:
         zp.REG.pop(kF, None)
